@@ -4,6 +4,8 @@ import (
 	"fmt"
 	"os"
 	"strings"
+	"sync"
+	"sync/atomic"
 	"time"
 
 	"github.com/mk6i/mkdb/storage"
@@ -207,9 +209,27 @@ func c13RacePass(env *lib.Env, rep *lib.Report, skipCreate bool) {
 	defer os.RemoveAll(dir)
 	storage.VerifInstall(false, 0, 0, 0)
 	delay := 130 * time.Millisecond
+	// While a statement sleeps at the end of its log append it still holds the store lock: nothing may reach the
+	// data file in that window, whatever the timing (a write seen here is never a matter of luck; not seeing
+	// one may be).
+	var open atomic.Bool
+	var mu sync.Mutex
+	var inside []string
+	curStmt := ""
 	storage.VerifOnWrite(func(e storage.VerifWrite) {
-		if e.Kind == "walend" {
+		switch e.Kind {
+		case "walend":
+			open.Store(true)
 			time.Sleep(delay) // hold the statement open across at least one tick
+			open.Store(false)
+		case "page", "header":
+			if open.Load() {
+				mu.Lock()
+				if len(inside) < 5 {
+					inside = append(inside, fmt.Sprintf("%s write at offset %d of %s while %q had made its changes and not yet finished its log append", e.Kind, e.Off, e.Path, curStmt))
+				}
+				mu.Unlock()
+			}
 		}
 	})
 	if err := storage.InitStorage(); err != nil {
@@ -217,6 +237,9 @@ func c13RacePass(env *lib.Env, rep *lib.Report, skipCreate bool) {
 	}
 	sess := &Session{}
 	run := func(q string) {
+		mu.Lock()
+		curStmt = q
+		mu.Unlock()
 		if err := sess.ExecQuery(q); err != nil {
 			panic(lib.HarnessError{Msg: q + ": " + err.Error()})
 		}
@@ -249,9 +272,21 @@ func c13RacePass(env *lib.Env, rep *lib.Report, skipCreate bool) {
 		// SELECT is not logged: hold it open by sleeping between statements while ticks fire
 		time.Sleep(120 * time.Millisecond)
 	}
+	// re-selecting the current database, spelled in another letter case, must not leave a second store with
+	// its own flusher on the same file
+	run("USE D")
+	for _, q := range []string{"INSERT INTO t1 VALUES (9001, 'r')", "UPDATE t1 SET c = 'z' WHERE a = 9001", "INSERT INTO t1 VALUES (9002, 'r')", "DELETE FROM t1 WHERE a = 9001"} {
+		run(q)
+	}
+	time.Sleep(120 * time.Millisecond)
 	sess.Close()
+	mu.Lock()
+	if len(inside) > 0 {
+		rep.AddFailure(&lib.Failure{Kind: "write-inside-statement", Detail: "free-running pass with the real 100 ms flusher: " + strings.Join(inside, "\n"), Trace: []string{"race pass"}})
+	}
+	mu.Unlock()
 	rep.Evaluations = int64(n)
 	rep.AddCase(true, 1, 1)
 	rep.AddCase(true, 2, 2)
-	rep.Notes = append(rep.Notes, fmt.Sprintf("race pass: %d statements overlapped with the real 100 ms flusher", 15))
+	rep.Notes = append(rep.Notes, fmt.Sprintf("race pass: %d statements overlapped with the real 100 ms flusher", 19))
 }
